@@ -179,6 +179,22 @@ def gen_cases(tier, seed):
                     if outcome != 'success':
                         fault_or_cancel(rng, t, spec)
                     cases.append(spec)
+    # (D2) subscribers acting on OTHER transfers of the same manager from inside on_done: the fail-fast pattern (cancel the siblings,
+    # some of which have not started yet) and the chained pattern (start a fresh transfer on the manager)
+    for kind, extra in gen.KINDS:
+        for act in ('cancel_sibling', 'submit_new'):
+            for outcome in ('success', 'fault', 'cancel'):
+                for rep in range(1 if quick else 3):
+                    t = dict({'kind': kind, 'size': rng.choice([5, 20])}, **extra)
+                    t['subs'] = [{'reenter': {'on_done': [act]}}, {}]
+                    ts = [t] + [dict({'kind': k2, 'size': rng.choice([5, 20])}, **e2) for (k2, e2) in rng.sample(gen.KINDS, rng.choice([1, 2]))]
+                    cfg = dict(multipart_threshold=16, multipart_chunksize=8, io_chunksize=4, max_request_concurrency=rng.choice([1, 2]),
+                               max_submission_concurrency=rng.choice([1, 1, 2]))
+                    spec = {'seed': rng.randrange(1 << 30), 'min_part': 8, 'config': cfg, 'transfers': ts, 'family': 'D2-callbacks-on-others',
+                            'plan': {}, 'chained': True}
+                    if outcome != 'success':
+                        fault_or_cancel(rng, t, spec)
+                    cases.append(spec)
     # (E) stress
     for i in range(60 if quick else 600):
         spec = gen.mix(rng, rng.choice([1, 2, 3]), hi=rng.choice([1, 2, 3]))
@@ -270,7 +286,18 @@ def evaluate(obs):
     for x in obs.xfers:
         stats['success' if x.outcome == 'success' else 'raised'] += 1
     summary = {'outcomes': e2e.default_outcomes(obs), 'window': obs.injector.window_hits if obs.injector else None}
-    return [], stats, True, summary
+    viol = []
+    co = getattr(obs, 'chained_outcomes', None)
+    if co is not None:
+        stats['chained_started'] = len(co)
+        summary['chained'] = co
+        for (k, how, what) in co:
+            # the manager stays usable (C18): a fresh transfer started from a callback, with nothing wrong with it and no cancelling
+            # exit in progress, succeeds
+            if how != 'success':
+                viol.append(oracles.V(f'a fresh upload ({k}) started on the same manager from inside on_done ended {how}: {what}', sym='chained-failed',
+                                      family=fam))
+    return viol, stats, True, summary
 
 
 def run_case(case):
